@@ -15,6 +15,14 @@ Sub(s) == IF s.k = "GAP" THEN [k |-> "GAP", set |-> ToSet(s.set)] ELSE s
 Dg(d) == [to |-> d.to, subs |-> [i \in DOMAIN d.subs |-> Sub(d.subs[i])]]
 Out(e) == [i \in DOMAIN e.out |-> Dg(e.out[i])]
 
+
+\* C06: a hostile datagram was injected; measurements taken by the harness around the call
+C06Viol(e) ==
+       (IF e.died # "" THEN {"C06_process_died_or_hung"} ELSE {})
+  \cup (IF e.panic THEN {"C06_panic"} ELSE {})
+  \cup (IF e.us > 250000 THEN {"C06_time_out_of_proportion"} ELSE {})
+  \cup (IF e.alloc > 1048576 + 256 * e.len THEN {"C06_memory_out_of_proportion"} ELSE {})
+
 TraceInit == WAbsInit(TRUE, FALSE, 1) /\ l = 1 /\ run = 0
 
 Reset(e) ==
@@ -40,6 +48,10 @@ Step ==
        [] e.ev = "RepairDone" -> AbsRepairDone(e.r, e.quiescent) /\ UNCHANGED run
        [] e.ev = "Clean"      -> AbsClean(ToSet(e.hist), e.done) /\ UNCHANGED run
        [] e.ev = "Wait"       -> AbsWait(e.done) /\ UNCHANGED run
+       [] e.ev = "Hostile"    -> /\ hist' = (IF e.died = "" THEN ToSet(e.hist) ELSE hist)
+                                 /\ viol' = viol \cup C06Viol(e)
+                                 /\ UNCHANGED <<run, relW, volW, depthLim, wr, rd, ackLo, ackHi, req, pre, wAct, wUntil, wMay, wMust>>
+       [] e.ev \in {"HostileBegin", "RunDone"} -> UNCHANGED <<wabsVars, run>>
   /\ (viol' # viol /\ viol' # {}) =>
         PrintT("VIOL line=" \o ToString(l) \o " run=" \o ToString(run') \o " clauses=" \o ToString(viol' \ viol))
 
